@@ -31,7 +31,8 @@ pub struct PeerCfg {
 }
 
 pub fn peer_cfg(n: usize, outgoing: bool) -> PeerCfg {
-    let mut id = *b"-PEER00-000000000000";
+    // peer ids are arbitrary bytes: NUL, 0xff, and sequences that are not valid UTF-8
+    let mut id = *b"-PE\xff\x80-\x00\xfe0000000000\xc3\x28";
     id[6] = b'0' + n as u8;
     PeerCfg { addr: format!("10.0.0.{}:6881", n + 1), id, outgoing, ungated: false }
 }
